@@ -450,3 +450,174 @@ def rule_padding(ctx, cd, which: str, rule_id: str):
             n += 1
             ctx.ob(rule_id, t.rel, f"{lang}: {mname}: final padding to the type's own alignment is unconditional", False, "no final padding call", m.lineno)
     ctx.floor(rule_id, n, 4)
+
+
+# ---- the standard storage width of a primitive ----------------------------------------------------------------------------
+def rule_std_width(ctx, px, rule_id: str):
+    """Setters/getters (`nunavutSetUxx`, `getU<W>`, numpy scalar types) and the storage type of every primitive are named after
+    `to_standard_bit_length` / `pick_width`: the smallest of 8/16/32/64 that is not smaller than the bit length.  A selector that
+    returns a narrower width truncates values on the wire; a wider one changes the storage type and the primitive that is called."""
+    import ast
+
+    from nvsa import pyfront
+    from nvsa.report import AnalysisError
+
+    ctx.rule(
+        rule_id,
+        "the standard-width selectors (C/C++ _CFit.get_best_fit behind to_standard_bit_length and type_from_primitive, Python "
+        "pick_width behind numpy_scalar_type) return the smallest of 8/16/32/64 that is >= the bit length on every path and fail "
+        "beyond 64; the enum members carry the width in their value; the filters hand the type's own bit_length to the selector",
+    )
+    STD = [8, 16, 32, 64]
+
+    def const_int(e):
+        return e.value if isinstance(e, ast.Constant) and isinstance(e.value, int) and not isinstance(e.value, bool) else None
+
+    def bound(test, pol, w):
+        """('le', K) when (test, pol) says  w <= K,  ('gt', K) when it says  w > K;  None otherwise"""
+        if isinstance(test, ast.UnaryOp) and isinstance(test.op, ast.Not):
+            return bound(test.operand, not pol, w)
+        if not (isinstance(test, ast.Compare) and len(test.ops) == 1):
+            return None
+        l, op, r = test.left, test.ops[0], test.comparators[0]
+        if isinstance(r, ast.Name) and r.id == w and const_int(l) is not None:      # K op w  ->  w op' K
+            l, r = r, l
+            op = {ast.Lt: ast.Gt, ast.Gt: ast.Lt, ast.LtE: ast.GtE, ast.GtE: ast.LtE}.get(type(op), type(op))()
+        if not (isinstance(l, ast.Name) and l.id == w and const_int(r) is not None):
+            return None
+        k = const_int(r)
+        kind = {ast.LtE: ("le", k), ast.Lt: ("le", k - 1), ast.Gt: ("gt", k), ast.GtE: ("gt", k - 1)}.get(type(op))
+        if kind is None:
+            return None
+        return kind if pol else (("gt", kind[1]) if kind[0] == "le" else ("le", kind[1]))
+
+    def analyse(fn, w, value_of, label, rel, outer=None):
+        """value_of(expr) -> the integer width an assigned/returned expression stands for, or None"""
+        found = []      # (lower bound exclusive, upper bound inclusive, selected width)
+        closed = False
+        has_chain = any(isinstance(st, ast.If) and bound(st.test, True, w) is not None for st in fn.body)
+        if has_chain:
+            # every path through the function: the bit lengths it admits form (lo, hi]; it must select hi, a standard width, and
+            # lo must be the previous standard width
+            for path in pyfront.enumerate_paths(fn.body):
+                lo, hi = 0, None
+                for test, pol in path.conds:
+                    if isinstance(test, str):
+                        continue
+                    b = bound(test, pol, w)
+                    if b is None:
+                        continue
+                    if b[0] == "le":
+                        hi = b[1] if hi is None else min(hi, b[1])
+                    else:
+                        lo = max(lo, b[1])
+                if path.outcome == "raise":
+                    closed = closed or (hi is None and lo == STD[-1])
+                    continue
+                vals = [value_of(n.value) for st in path.stmts for n in ([st] if isinstance(st, (ast.Assign, ast.Return)) else []) if n.value is not None]
+                vals = [v for v in vals if v is not None]
+                if hi is not None and lo >= hi:
+                    continue        # infeasible combination
+                found.append((lo, hi, vals[0] if vals else None))
+            want = [(a, b, b) for a, b in zip([0] + STD[:-1], STD)]
+            ok = sorted(set(found), key=lambda x: (x[1] is None, x[1] or 0)) == want
+        else:
+            # loop / comprehension over an ascending constant sequence with the test  w <= <element>
+            def resolve(e):
+                e = pyfront.subst_locals(fn, e)
+                if isinstance(e, ast.Name) and outer is not None:
+                    e = pyfront.subst_locals(outer, e)
+                return e
+            ok = False
+            for n in ast.walk(fn):
+                it = var = test = None
+                if isinstance(n, ast.For) and isinstance(n.target, ast.Name):
+                    it, var = resolve(n.iter), n.target.id
+                    inner = [s_ for s_ in n.body if isinstance(s_, ast.If)]
+                    if inner and any(isinstance(x, ast.Return) and isinstance(x.value, ast.Name) and x.value.id == var for x in ast.walk(inner[0])):
+                        test = inner[0].test
+                elif isinstance(n, (ast.ListComp, ast.GeneratorExp)) and len(n.generators) == 1 and isinstance(n.generators[0].target, ast.Name) \
+                        and isinstance(n.elt, ast.Name) and n.elt.id == n.generators[0].target.id and len(n.generators[0].ifs) == 1:
+                    it, var, test = resolve(n.generators[0].iter), n.generators[0].target.id, n.generators[0].ifs[0]
+                if it is None or test is None or not isinstance(it, (ast.List, ast.Tuple)):
+                    continue
+                ok_t = isinstance(test, ast.Compare) and len(test.ops) == 1 and (
+                    (isinstance(test.ops[0], ast.LtE) and ast.unparse(test.left) == w and ast.unparse(test.comparators[0]) == var) or
+                    (isinstance(test.ops[0], ast.GtE) and ast.unparse(test.left) == var and ast.unparse(test.comparators[0]) == w))
+                seq = [const_int(e) for e in it.elts]
+                found = [(None, k, k) for k in seq]
+                # the first element that fits wins (loop with return, [0] / next() / min() of the filtered sequence): ascending order
+                ok = ok_t and seq == STD
+                closed = any(isinstance(x, ast.Raise) for x in ast.walk(fn))
+                break
+            if not found:
+                raise AnalysisError(f"anchor missing: width selection in {label}")
+        ctx.ob(rule_id, rel, f"{label} :: smallest standard width >= bit length", ok,
+               "" if ok else f"(admitted bit lengths (lo, hi], selected width): {found}: a primitive is stored in / accessed as a width that is not the smallest standard "
+               "width holding it", fn.lineno)
+        ctx.ob(rule_id, rel, f"{label} :: more than 64 bits fails", closed, "", fn.lineno)
+
+    # C / C++
+    cm = px.module("nunavut.lang.c")
+    fit = cm.classes.get("_CFit")
+    if fit is None:
+        raise AnalysisError("anchor missing: nunavut.lang.c._CFit")
+    members = {}
+    for st in fit.node.body:
+        if isinstance(st, ast.Assign) and isinstance(st.targets[0], ast.Name) and const_int(st.value) is not None:
+            members[st.targets[0].id] = const_int(st.value)
+    ok = sorted(members.values()) == STD and all(name.rsplit("_", 1)[-1] == str(v) for name, v in members.items())
+    ctx.ob(rule_id, cm.rel, "_CFit :: members IN_8..IN_64 carry their width as value", ok, f"{members}", fit.node.lineno)
+    gbf = fit.methods.get("get_best_fit")
+    if gbf is None:
+        raise AnalysisError("anchor missing: _CFit.get_best_fit")
+    wparam = gbf.node.args.args[1].arg
+
+    def member_value(e):
+        if isinstance(e, ast.Attribute) and e.attr in members:
+            return members[e.attr]
+        if isinstance(e, ast.Call) and e.args:
+            return member_value(e.args[0])
+        return const_int(e)
+    analyse(gbf.node, wparam, member_value, "_CFit.get_best_fit", cm.rel)
+    for modname in ("nunavut.lang.c", "nunavut.lang.cpp"):
+        m = px.module(modname)
+        f = m.funcs.get("filter_to_standard_bit_length")
+        if f is None:
+            raise AnalysisError(f"anchor missing: filter_to_standard_bit_length in {modname}")
+        tparam = f.node.args.args[-1].arg
+        rets = [ast.unparse(pyfront.subst_locals(f.node, r.value)).replace(" ", "") for r in ast.walk(f.node) if isinstance(r, ast.Return) and r.value is not None]
+        ok = bool(rets) and all(r in (f"int(_CFit.get_best_fit({tparam}.bit_length).value)", f"_CFit.get_best_fit({tparam}.bit_length).value") for r in rets)
+        ctx.ob(rule_id, m.rel, f"{f.short} :: the selector is given the type's own bit_length", ok, f"{rets}", f.node.lineno)
+    tfp = cm.funcs.get("filter_type_from_primitive")
+    if tfp is not None:
+        src = ast.unparse(tfp.node).replace(" ", "")
+        vparam = tfp.node.args.args[-1].arg
+        ok = f"_CFit.get_best_fit({vparam}.bit_length)" in src
+        ctx.ob(rule_id, cm.rel, f"{tfp.short} :: storage type chosen from the type's own bit_length", ok, "", tfp.node.lineno)
+    sti = fit.methods.get("to_std_int")
+    if sti is not None:
+        from nvsa import symstr
+        alts = set()
+        for r in ast.walk(sti.node):
+            if isinstance(r, ast.Return) and r.value is not None:
+                for c, pcs in symstr.sym(px, sti, r.value):
+                    alts.add(symstr.render(pcs))
+        sgn = sti.node.args.args[1].arg
+        ok = alts <= {"int{self.value}_t", "uint{self.value}_t"} and len(alts) == 2 or \
+            alts == {"{'' if " + sgn + " else 'u'}int{self.value}_t"} or alts == {"{'u' if not " + sgn + " else ''}int{self.value}_t"}
+        ctx.ob(rule_id, cm.rel, f"{sti.short} :: [u]int<width>_t with the member's own width", ok, f"{sorted(alts)}", sti.node.lineno)
+    # Python
+    pm = px.module("nunavut.lang.py")
+    nst = pm.funcs.get("filter_numpy_scalar_type")
+    if nst is None:
+        raise AnalysisError("anchor missing: filter_numpy_scalar_type")
+    inner = [n for n in ast.walk(nst.node) if isinstance(n, ast.FunctionDef) and n is not nst.node]
+    sel = next((n for n in inner if len(n.args.args) == 1), None)
+    if sel is None:
+        raise AnalysisError("anchor missing: width selector inside filter_numpy_scalar_type")
+    analyse(sel, sel.args.args[0].arg, const_int, f"filter_numpy_scalar_type.{sel.name}", pm.rel, outer=nst.node)
+    tparam = nst.node.args.args[-1].arg
+    calls = [c for c in ast.walk(nst.node) if isinstance(c, ast.Call) and isinstance(c.func, ast.Name) and c.func.id == sel.name]
+    ok = bool(calls) and all(len(c.args) == 1 and ast.unparse(c.args[0]) == f"{tparam}.bit_length" for c in calls)
+    ctx.ob(rule_id, pm.rel, f"{nst.short} :: the selector is given the type's own bit_length", ok, "", nst.node.lineno)
